@@ -294,11 +294,17 @@ class Registry:
 
     def prove_clause(self, I, name, v, kind, excuses_fr=None):
         ctx = I.ctx
+        guards = []
         while isinstance(v, ForallV):
             k = ctx.fresh(v.label, "int")
-            ctx.assume(z3.And(k >= to_z3(v.lo), k < to_z3(v.hi)))
+            # the Skolem's range is a hypothesis of THIS goal only.  (Assuming it on the path would make
+            # the path condition unsatisfiable for an empty range -- e.g. `forall q in [0, _k)` at
+            # _k = 0 -- and everything after it vacuously true.)
+            guards.append(z3.And(k >= to_z3(v.lo), k < to_z3(v.hi)))
             I.saw_index(k)
             v = v.fn(k)
+        if guards:
+            v = ops.b_implies(ops.b_and(*guards), v)
         excuses = None
         base = f"{ctx.func_label}/{name}"
         if base in self.known and excuses_fr is not None:
@@ -637,7 +643,30 @@ class Registry:
     min_with_key = _unsupported("min(..., key=)")
     sym_sum = _unsupported("sum over a symbolic-length sequence")
     sym_all = _unsupported("all() over a symbolic-length sequence")
-    tensor_all = _unsupported("torch.all over a symbolic shape")
+    def tensor_all(self, I, x):
+        """torch.all over a symbolic-length 1-d tensor: a Boolean b with (b -> every element is
+        true) as a lazily instantiated universal and a Skolem witness for (not b)."""
+        if x.ndim != 1:
+            raise Unsupported("torch.all over a symbolic multi-dimensional shape")
+        ctx = I.ctx
+        n = x.shape[0]
+        b = ctx.fresh("all", "bool")
+        w = ctx.fresh("w", "int")
+        xf = x.fn
+        ctx.assume(z3.Implies(z3.Not(b), z3.And(w >= 0, w < to_z3(n), z3.Not(to_z3(I.truth(xf(w)))))))
+        I.add_forall(ForallV(lambda k: ops.b_implies(b, I.truth(xf(k))), 0, n, "k"))
+        return b
+
+    def tensor_any(self, I, x):
+        """torch.any over a symbolic-length 1-d tensor (dual of tensor_all)"""
+        ctx = I.ctx
+        n = x.shape[0]
+        b = ctx.fresh("any", "bool")
+        w = ctx.fresh("w", "int")
+        xf = x.fn
+        ctx.assume(z3.Implies(b, z3.And(w >= 0, w < to_z3(n), to_z3(I.truth(xf(w))))))
+        I.add_forall(ForallV(lambda k: ops.b_implies(ops.b_not(b), ops.b_not(I.truth(xf(k)))), 0, n, "k"))
+        return b
     def tensor_sum(self, I, x, dim=None):
         if dim is not None:
             raise Unsupported("tensor sum along a dimension of a symbolic shape")
